@@ -161,6 +161,19 @@ pub fn check(case: &Case) -> Verdict {
             }
             Within::Yes => {}
         }
+        // the unit ratio query: factor such that factor * `to` == 1 * `from`
+        if let Ok(rt) = catch(|| (rv.ratio)(from, to)) {
+            let one = crate::exact::Rat::one();
+            if let Some(b) = amt::conversion_budget(&one, sf, c.scale(case.ty, to)) {
+                if !amt::close(rt, &sf.mul(&st_inv), &b, 1) {
+                    fail!(
+                        "{}: ratio of {} to {} is {}; exact {}",
+                        tname, c.models[case.ty].row.units[from].konst, c.models[case.ty].row.units[to].konst,
+                        amt::show(rt), sf.mul(&st_inv).describe()
+                    );
+                }
+            }
+        }
         let trivial = amt::is_zero(a) || sf.eq(c.scale(case.ty, to));
         let class = if sf.eq(c.scale(case.ty, to)) {
             "equal-scale"
